@@ -152,7 +152,7 @@ type vrtCredAuth struct{}
 
 func (vrtCredAuth) Authenticate(id string, cred interface{}) error {
 	pw, _ := cred.(string)
-	if id == "u" && pw == "p" {
+	if (id == "u" && pw == "p") || (id == "adm" && pw == "inX") {
 		return nil
 	}
 	return fmt.Errorf("bad credentials")
@@ -173,6 +173,9 @@ func H11_credentials() {
 	good := vrtConnectPkt([]byte("g"), true)
 	good.CFlags |= 0xC0
 	good.User, good.Pass = []byte("u"), []byte("p")
+	if vrtBool("long_good_pair") {
+		good.User, good.Pass = []byte("adm"), []byte("inX")
+	}
 	goodFirst := vrtBool("good_one_first")
 	if goodFirst {
 		_, ack := b.connect(good)
@@ -180,9 +183,17 @@ func H11_credentials() {
 	}
 	// the connection under test: anonymous, or with a symbolic user name / password
 	p := vrtConnectPkt([]byte("c"), true)
-	kind := vrtChoice("credentials", 3)
+	kind := vrtChoice("credentials", 4)
 	ok := false
 	switch kind {
+	case 3:
+		// the same characters as an accepted pair, split differently between user name and password (a decision
+		// that is remembered under a key built from both must not confuse "adm"+"inX" with "admin"+"X")
+		all := []byte("adminX")
+		k := vrtChoice("split", len(all)+1)
+		p.CFlags |= 0xC0
+		p.User, p.Pass = all[:k:k], all[k:]
+		ok = k == 3
 	case 1:
 		p.CFlags |= 0x80
 		p.User = []byte{vrtByte("user")}
